@@ -587,6 +587,9 @@ func runEvalCase(c *Ctx, e *ex, expr string, m string, binds []binding, label st
 	}
 	if c.Prop == "C01" {
 		reuseEval(c, m, evalStep{expr, binds}, out)
+		if c.Evals%2 == 0 {
+			checkEvalEntryPoints(c, m, expr, binds, out)
+		}
 	}
 	// the whole pipeline from text in the model: trim, tokenize, lexical analysis, syntax analysis, evaluation
 	c.model(strings.TrimSpace(fmt.Sprintf("calc %s %s ; %s", m, strRunes(expr), bindsStr(binds))), out, "model-host")
@@ -746,7 +749,7 @@ func propLiterals(c *Ctx) {
 }
 
 func replayEval(c *Ctx, op string) {
-	if replaySeq(c, op) {
+	if replaySeq(c, op) || replayEntry(c, op) {
 		return
 	}
 	if f := strings.Fields(op); len(f) == 2 && f[0] == "lit" {
@@ -754,14 +757,14 @@ func replayEval(c *Ctx, op string) {
 		return
 	}
 	f := strings.Fields(op)
-	if len(f) >= 3 && f[0] == "evalx" {
+	if len(f) >= 3 && (f[0] == "evalx" || f[0] == "calc") {
 		var binds []binding
 		for _, b := range f[4:] {
 			p := strings.SplitN(b, "=", 2)
 			binds = append(binds, binding{string(parseRunes(p[0])), decVariant(p[1])})
 		}
 		runEvalCase(c, nil, string(parseRunes(f[2])), f[1], binds, "replay")
-	} else if len(f) >= 2 && f[0] == "expr" {
+	} else if len(f) >= 2 && (f[0] == "expr" || f[0] == "lex") {
 		runParseCase(c, string(parseRunes(f[1])), "replay")
 	} else if f[0] == "fn" {
 		replayC08(c, op)
